@@ -26,6 +26,9 @@ type c10Case struct {
 	// Unencodable >= 0: that request carries a string field that is not valid
 	// UTF-8, so writing it to the client fails in the runner (proto.Marshal)
 	Unencodable int `json:"unencodable_request"`
+	// EarlyStopUs >= 0: another task calls stop() that long after the start,
+	// while senders may still be in the middle of their writes
+	EarlyStopUs int `json:"stop_called_after_us"`
 	SlowNode int          `json:"slow_node_permille"`
 }
 
@@ -148,6 +151,10 @@ func c10Gen(tape *simrt.Tape, tier string) *c10Case {
 	c.Script = sc
 	c.Fault = cfNames[sc.Fault]
 	c.LateSend = tape.Bool(1, 2, "latesend")
+	c.EarlyStopUs = -1
+	if tape.Bool(1, 8, "earlystop") {
+		c.EarlyStopUs = []int{0, 1, 100, 1000, 50000, 2000000}[tape.Choose(6, "earlystop.at")]
+	}
 	c.Unencodable = -1
 	if tape.Bool(1, 12, "unencodable") {
 		c.Unencodable = tape.Choose(n, "unencodable.req")
@@ -185,6 +192,7 @@ func c10Body(tape *simrt.Tape, o simwork.Opts, res *simwork.Result) {
 		waitErr      error
 		waitAt       time.Duration
 		mainDone     bool
+		stopReturned bool
 		runningAtEnd bool
 		checkedRun   bool
 		clientGoneAt time.Duration
@@ -215,6 +223,16 @@ func c10Body(tape *simrt.Tape, o simwork.Opts, res *simwork.Result) {
 		if startErr != nil {
 			mainDone = true
 			return
+		}
+		if cs.EarlyStopUs >= 0 {
+			res.Faults["runner:stop-called-while-sending"]++
+			simrt.Go("c10.stopper", func() {
+				if cs.EarlyStopUs > 0 {
+					simrt.Sleep(time.Duration(cs.EarlyStopUs)*time.Microsecond, "c10.stopper.wait")
+				}
+				runner.stop()
+				stopReturned = true
+			})
 		}
 		done := make(chan int, len(cs.Senders))
 		for si := range cs.Senders {
@@ -300,6 +318,9 @@ func c10Body(tape *simrt.Tape, o simwork.Opts, res *simwork.Result) {
 		viol("c10/liveness/bound", "waitForResponses returned %s after the last send, bound %s", waitAt-sendsDone, bound)
 	}
 
+	if cs.EarlyStopUs >= 0 && !stopReturned {
+		viol("c10/liveness/stop-hangs", "stop() was called %d us after the start and had not returned when the run ended; tasks: %s", cs.EarlyStopUs, strings.Join(sim.EndSites(), "; "))
+	}
 	// ---- exactly once
 	for _, s := range sends {
 		switch {
